@@ -1,4 +1,4 @@
-import Spade.Proofs.LinkInv.Base
+import Spade.Proofs.CcwBase
 namespace Spade
 namespace St
 
@@ -158,6 +158,127 @@ theorem LInv.shCore {s : St} (hs : LInv s) (e0 : Nat) (p : Pt) (d : Nat) (b_0 : 
     unfold St.shCore
     rcases hx' with h | h <;> subst h
     all_goals (refine ⟨?_, ?_⟩ <;> evw [b_0, b_1, b_2, b_3, b_4, d_0_1, d_0_1.symm, d_0_2, d_0_2.symm, d_0_3, d_0_3.symm, d_0_4, d_0_4.symm, d_1_2, d_1_2.symm, d_1_3, d_1_3.symm, d_1_4, d_1_4.symm, d_2_3, d_2_3.symm, d_2_4, d_2_4.symm, d_3_4, d_3_4.symm, n_0, (n_0 _).symm, m_0, m_0.symm, u_0, n_1, (n_1 _).symm, m_1, m_1.symm, u_1, n_2, (n_2 _).symm, m_2, m_2.symm, u_2, n_3, (n_3 _).symm, m_3, m_3.symm, u_3, n_4, (n_4 _).symm, m_4, m_4.symm, u_4, fb1] <;> grind)
+
+set_option maxHeartbeats 4000000 in
+/-- splitting a hull edge (from its inner side) at a point of its relative interior keeps every inner face counter-clockwise -/
+theorem CInv.shCore_ccw {s : St} (hc : CInv s) (e0 : Nat) (p : Pt) (d : Nat) (b_0 : e0 < s.nE)
+    (hfe0 : s.fc e0 ≠ 0) (hft0 : s.fc (s.rv e0) = 0) (hgeo : OnOpenSeg (s.A e0) (s.B e0) p) :
+    ∀ x, x < (shCore s e0 (s.nxt e0) (s.prv e0) (s.rv e0) (s.prv (s.rv e0))
+      (s.org (s.prv e0)) (s.org (s.rv e0)) (s.fc e0) (s.fc (s.rv e0)) p d).nE → CcwE (shCore s e0 (s.nxt e0) (s.prv e0) (s.rv e0) (s.prv (s.rv e0))
+      (s.org (s.prv e0)) (s.org (s.rv e0)) (s.fc e0) (s.fc (s.rv e0)) p d) x := by
+  have hs := hc.links
+  have ev0 := hs.even
+  have b_3 := hs.rv_lt b_0
+  obtain ⟨b_1, b_2, a3, a4, a5, a6, a7, a8, a9, a10, a11⟩ := hs.tri b_0 hfe0
+  obtain ⟨x1, x2⟩ := hs.tri_cross b_0 hfe0
+  have rr := hs.rv_rv b_0
+  have rne := hs.rv_ne b_0
+  have E0 := hs.edge e0 b_0
+  have E1 := hs.edge _ b_1
+  have E2 := hs.edge _ b_2
+  have E3 := hs.edge _ b_3
+  have b_4 : s.prv (s.rv e0) < s.nE := E3.2.2.1
+  have E4 := hs.edge _ b_4
+  have c4 : s.nxt (s.prv (s.rv e0)) = s.rv e0 := E3.2.2.2.2.2.2.1
+  have c8 : s.fc (s.prv (s.rv e0)) = 0 := by
+    have := E4.2.2.2.2.2.2.2.1; rw [c4, hft0] at this; exact this.symm
+  have r1 := hs.rv_rv b_1
+  have r2 := hs.rv_rv b_2
+  have r4 := hs.rv_rv b_4
+  have l1 := hs.rv_lt b_1
+  have l2 := hs.rv_lt b_2
+  have l4 := hs.rv_lt b_4
+  have bn : s.nxt (s.rv e0) < s.nE := E3.2.1
+  have En := hs.edge _ bn
+  have k0 := hc.ccw e0 b_0 hfe0
+  unfold CcwE A B C opp dst at k0
+  unfold A B dst at hgeo
+  obtain ⟨⟨s1, s2, s3⟩, ⟨s4, s5, s6⟩⟩ := split_facts _ _ _ p hgeo k0
+  have hv_en : s.org (s.rv (s.nxt e0)) = s.org (s.prv e0) := by
+    have := E1.2.2.2.2.2.2.2.2.1; rw [a3] at this; exact this.symm
+  have hv_ep : s.org (s.rv (s.prv e0)) = s.org e0 := by
+    have := E2.2.2.2.2.2.2.2.2.1; rw [a4] at this; exact this.symm
+  have ho_en : s.org (s.nxt e0) = s.org (s.rv e0) := E0.2.2.2.2.2.2.2.2.1
+  generalize hen : s.nxt e0 = en at *
+  generalize hep : s.prv e0 = ep at *
+  generalize ht : s.rv e0 = tw at *
+  generalize htq : s.prv tw = tq at *
+  have dd : e0 ≠ en ∧ e0 ≠ ep ∧ e0 ≠ tw ∧ e0 ≠ tq ∧ en ≠ ep ∧ en ≠ tw ∧ en ≠ tq ∧ ep ≠ tw ∧ ep ≠ tq ∧ tw ≠ tq := by
+    unfold EdgeOK dst at *
+    refine ⟨a9, a10, Ne.symm rne, ?_, a11, Ne.symm x1, ?_, Ne.symm x2, ?_, ?_⟩
+    all_goals grind
+  obtain ⟨d_0_1, d_0_2, d_0_3, d_0_4, d_1_2, d_1_3, d_1_4, d_2_3, d_2_4, d_3_4⟩ := dd
+  have n_0 : ∀ k, s.nE + k ≠ e0 := by intro k; omega
+  have m_0 : s.nE ≠ e0 := by omega
+  have u_0 : ∀ k, e0 < s.nE + k := by intro k; omega
+  have n_1 : ∀ k, s.nE + k ≠ en := by intro k; omega
+  have m_1 : s.nE ≠ en := by omega
+  have u_1 : ∀ k, en < s.nE + k := by intro k; omega
+  have n_2 : ∀ k, s.nE + k ≠ ep := by intro k; omega
+  have m_2 : s.nE ≠ ep := by omega
+  have u_2 : ∀ k, ep < s.nE + k := by intro k; omega
+  have n_3 : ∀ k, s.nE + k ≠ tw := by intro k; omega
+  have m_3 : s.nE ≠ tw := by omega
+  have u_3 : ∀ k, tw < s.nE + k := by intro k; omega
+  have n_4 : ∀ k, s.nE + k ≠ tq := by intro k; omega
+  have m_4 : s.nE ≠ tq := by omega
+  have u_4 : ∀ k, tq < s.nE + k := by intro k; omega
+  have L_0 := hs.rv_lt b_0
+  have rvn_0 : ∀ k, s.rv e0 ≠ s.nE + k := by intro k; omega
+  have rvm_0 : s.rv e0 ≠ s.nE := by omega
+  have on_0 : s.org e0 ≠ s.nV := by have := (hs.edge _ b_0).1; omega
+  have orn_0 : s.org (s.rv e0) ≠ s.nV := by have := (hs.edge _ L_0).1; omega
+  have L_1 := hs.rv_lt b_1
+  have rvn_1 : ∀ k, s.rv en ≠ s.nE + k := by intro k; omega
+  have rvm_1 : s.rv en ≠ s.nE := by omega
+  have on_1 : s.org en ≠ s.nV := by have := (hs.edge _ b_1).1; omega
+  have orn_1 : s.org (s.rv en) ≠ s.nV := by have := (hs.edge _ L_1).1; omega
+  have L_2 := hs.rv_lt b_2
+  have rvn_2 : ∀ k, s.rv ep ≠ s.nE + k := by intro k; omega
+  have rvm_2 : s.rv ep ≠ s.nE := by omega
+  have on_2 : s.org ep ≠ s.nV := by have := (hs.edge _ b_2).1; omega
+  have orn_2 : s.org (s.rv ep) ≠ s.nV := by have := (hs.edge _ L_2).1; omega
+  have L_3 := hs.rv_lt b_3
+  have rvn_3 : ∀ k, s.rv tw ≠ s.nE + k := by intro k; omega
+  have rvm_3 : s.rv tw ≠ s.nE := by omega
+  have on_3 : s.org tw ≠ s.nV := by have := (hs.edge _ b_3).1; omega
+  have orn_3 : s.org (s.rv tw) ≠ s.nV := by have := (hs.edge _ L_3).1; omega
+  have L_4 := hs.rv_lt b_4
+  have rvn_4 : ∀ k, s.rv tq ≠ s.nE + k := by intro k; omega
+  have rvm_4 : s.rv tq ≠ s.nE := by omega
+  have on_4 : s.org tq ≠ s.nV := by have := (hs.edge _ b_4).1; omega
+  have orn_4 : s.org (s.rv tq) ≠ s.nV := by have := (hs.edge _ L_4).1; omega
+  have szE : (s.shCore e0 en ep tw tq (s.org ep) (s.org tw) (s.fc e0) (s.fc tw) p d).nE = s.nE + 4 := by unfold St.shCore; evw [b_0, b_1, b_2, b_3, b_4, d_0_1, d_0_1.symm, d_0_2, d_0_2.symm, d_0_3, d_0_3.symm, d_0_4, d_0_4.symm, d_1_2, d_1_2.symm, d_1_3, d_1_3.symm, d_1_4, d_1_4.symm, d_2_3, d_2_3.symm, d_2_4, d_2_4.symm, d_3_4, d_3_4.symm, n_0, (n_0 _).symm, m_0, m_0.symm, u_0, n_1, (n_1 _).symm, m_1, m_1.symm, u_1, n_2, (n_2 _).symm, m_2, m_2.symm, u_2, n_3, (n_3 _).symm, m_3, m_3.symm, u_3, n_4, (n_4 _).symm, m_4, m_4.symm, u_4]
+  intro x hx hfx
+  rw [szE] at hx
+  by_cases hT : x = e0 ∨ x = en ∨ x = ep ∨ x = tw ∨ x = tq ∨ x = s.nE ∨ x = s.nE + 1 ∨ x = s.nE + 2 ∨ x = s.nE + 3
+  · unfold St.shCore at hfx ⊢
+    unfold CcwE A B C opp dst EdgeOK at *
+    rcases hT with h | h | h | h | h | h | h | h | h <;> subst h
+    all_goals (revert hfx; evw [b_0, b_1, b_2, b_3, b_4, d_0_1, d_0_1.symm, d_0_2, d_0_2.symm, d_0_3, d_0_3.symm, d_0_4, d_0_4.symm, d_1_2, d_1_2.symm, d_1_3, d_1_3.symm, d_1_4, d_1_4.symm, d_2_3, d_2_3.symm, d_2_4, d_2_4.symm, d_3_4, d_3_4.symm, n_0, (n_0 _).symm, m_0, m_0.symm, u_0, n_1, (n_1 _).symm, m_1, m_1.symm, u_1, n_2, (n_2 _).symm, m_2, m_2.symm, u_2, n_3, (n_3 _).symm, m_3, m_3.symm, u_3, n_4, (n_4 _).symm, m_4, m_4.symm, u_4, hen, hep, ht, htq, a3, a4, a5, a6, c4, rr, hv_en, hv_ep, ho_en, rvn_0, rvm_0, on_0, orn_0, rvn_1, rvm_1, on_1, orn_1, rvn_2, rvm_2, on_2, orn_2, rvn_3, rvm_3, on_3, orn_3, rvn_4, rvm_4, on_4, orn_4]; intro hfx; grind (splits := 40))
+  · simp only [not_or] at hT
+    obtain ⟨t_0, t_1, t_2, t_3, t_4, t_5, t_6, t_7, t_8⟩ := hT
+    have hlt : x < s.nE := by omega
+    have Ex := hs.edge x hlt
+    have rx := hs.rv_rv hlt
+    have lx := hs.rv_lt hlt
+    have kx := hc.ccw x hlt
+    have hin : ∀ k, x ≠ s.nE + k := by intro k; omega
+    have hi0 : x ≠ s.nE := by omega
+    have px := (hs.edge x hlt).2.2.1
+    have y1 : ∀ k, s.rv x ≠ s.nE + k := by intro k; omega
+    have y2 : s.rv x ≠ s.nE := by omega
+    have y3 : ∀ k, s.prv x ≠ s.nE + k := by intro k; omega
+    have y4 : s.prv x ≠ s.nE := by omega
+    have y5 : s.org x ≠ s.nV := by have := (hs.edge x hlt).1; omega
+    have y6 : s.org (s.rv x) ≠ s.nV := by have := (hs.edge _ lx).1; omega
+    have y7 : s.org (s.prv x) ≠ s.nV := by have := (hs.edge _ px).1; omega
+    unfold St.shCore at hfx ⊢
+    unfold CcwE A B C opp dst EdgeOK at *
+    revert hfx
+    evw [b_0, b_1, b_2, b_3, b_4, d_0_1, d_0_1.symm, d_0_2, d_0_2.symm, d_0_3, d_0_3.symm, d_0_4, d_0_4.symm, d_1_2, d_1_2.symm, d_1_3, d_1_3.symm, d_1_4, d_1_4.symm, d_2_3, d_2_3.symm, d_2_4, d_2_4.symm, d_3_4, d_3_4.symm, n_0, (n_0 _).symm, m_0, m_0.symm, u_0, n_1, (n_1 _).symm, m_1, m_1.symm, u_1, n_2, (n_2 _).symm, m_2, m_2.symm, u_2, n_3, (n_3 _).symm, m_3, m_3.symm, u_3, n_4, (n_4 _).symm, m_4, m_4.symm, u_4, t_0, t_1, t_2, t_3, t_4, hin, hi0, hlt, y1, y2, y3, y4, y5, y6, y7]
+    intro hfx
+    grind (splits := 40)
 
 end St
 end Spade
